@@ -42,6 +42,7 @@ func runC14(c *Ctx, r *Report) {
 	c14Replay(c, r, "C14.R14")
 	c14DNSRule(c, r, "C14.R15")
 	c06IsHTTP(c, r, "C14.R16")
+	c14ClockWindow(c, r, "C14.R17")
 }
 
 // fieldAccesses returns for every function the struct fields it loads and stores.
